@@ -266,6 +266,66 @@ const callFormsFile = `{namespace pr}
 {call .show data="all" /}{if isNonnull($m)}{call .show data="$m" /}{/if}
 {/template}
 /**
+ * @param? title
+ * @param? note
+ */
+{template .d0}{$title ?: ''}{call .d1 data="all" /}{/template}
+/**
+ * @param? title
+ * @param? note
+ */
+{template .d1}{$title ?: ''}{call .d2 data="all" /}{/template}
+/**
+ * @param? title
+ * @param? note
+ */
+{template .d2}{$title ?: ''}{call .d3 data="all" /}{/template}
+/**
+ * @param? title
+ * @param? note
+ */
+{template .d3}{$title ?: ''}{call .d4 data="all" /}{/template}
+/**
+ * @param? title
+ * @param? note
+ */
+{template .d4}{$title ?: ''}{call .d5 data="all" /}{/template}
+/**
+ * @param? title
+ * @param? note
+ */
+{template .d5}{$title ?: ''}{call .d6 data="all" /}{/template}
+/**
+ * @param? title
+ * @param? note
+ */
+{template .d6}{$title ?: ''}{call .d7 data="all" /}{/template}
+/**
+ * @param? title
+ * @param? note
+ */
+{template .d7}{$title ?: ''}{call .d8 data="all" /}{/template}
+/**
+ * @param? title
+ * @param? note
+ */
+{template .d8}{$title ?: ''}{call .d9 data="all"}{param note: 'set by d8' /}{/call}{/template}
+/**
+ * @param? title
+ * @param? note
+ */
+{template .d9}{$title ?: ''}{call .d10 data="all"}{param note: 'set by d9' /}{/call}{/template}
+/**
+ * @param? title
+ * @param? note
+ */
+{template .d10}{$title ?: ''}{call .d11 data="all"}{param note: 'set by d10' /}{/call}{/template}
+/**
+ * @param? title
+ * @param? note
+ */
+{template .d11}[{$title ?: 'nt'}|{$note ?: 'nn'}]{/template}
+/**
  * @param? m
  * @param? c
  */
@@ -523,7 +583,7 @@ func c08History(r *fw.Rand, tier, config string, nops int) (files []srcFile, pro
 	if config == "custom" {
 		names = append(names, "cust.t")
 	}
-	names = append(names, "pr.scopeforms", "pr.sf1", "pr.sf2", "pr.sf3", "pr.sf4", "pr.sfi1", "pr.sfi2", "pr.sfi3", "pr.callforms", "pr.callforms", "pr.dirforms", "pr.funcforms", "pr.pluralforms", "pr.pluralforms", "pr.samewords1", "pr.samewords2", "pr.samewords2", "pr.samewords1", "twa.t", "twb.t", "twb.t", "twa.t")
+	names = append(names, "pr.d0", "pr.d0", "pr.d3", "pr.scopeforms", "pr.sf1", "pr.sf2", "pr.sf3", "pr.sf4", "pr.sfi1", "pr.sfi2", "pr.sfi3", "pr.callforms", "pr.callforms", "pr.dirforms", "pr.funcforms", "pr.pluralforms", "pr.pluralforms", "pr.samewords1", "pr.samewords2", "pr.samewords2", "pr.samewords1", "twa.t", "twb.t", "twb.t", "twa.t")
 	for k := 0; k < nops; k++ {
 		if config == "custom" && r.P(1, 10) {
 			ops = append(ops, c08Op{kind: "reconf"})
